@@ -56,6 +56,9 @@ namespace options
                const std::string& about = std::string(""),
                const std::string& group = std::string("arguments"));
 
+        parser(parser&& other);
+        parser& operator=(parser&& other);
+
         auto parse(int argc, const char* const argv[]) -> arguments;
         auto parse(const std::vector<options::user_input>& args) -> arguments;
 
